@@ -28,6 +28,7 @@ type AppSpec struct {
 	Rotation string `json:"rotation,omitempty"`
 	MaxAge   int    `json:"max_age,omitempty"`
 	Slow     int    `json:"slow,omitempty"`
+	StartLog bool   `json:"start_log,omitempty"` // Rec: logs through a tag from inside Start
 }
 
 type LogSpec struct {
@@ -133,6 +134,9 @@ func (a AppSpec) kvs(explicit bool) []kv {
 	case "Rec":
 		if a.Slow > 0 || explicit {
 			out = append(out, kv{"slow", strconv.Itoa(a.Slow)})
+		}
+		if a.StartLog {
+			out = append(out, kv{"startLog", "true"})
 		}
 	}
 	return out
